@@ -175,3 +175,10 @@ Proof.
   setoid_replace (r' - r) with 0 by (rewrite Hr; ring).
   setoid_replace (r - p) with (r' - p) by (rewrite Hr; ring). ring.
 Qed.
+
+(* ------------------------------------------------------------------------- *)
+(** * Example scales used by the non-vacuity examples of props/C09.v           *)
+(* ------------------------------------------------------------------------- *)
+
+Definition sA : scale := [(0, 1 # 10); (10, 2 # 10); (20, 3 # 10)].
+Definition sB : scale := [(5, 1 # 4); (10, 1 # 8); (30, 1 # 2)].
